@@ -3,6 +3,7 @@
 # property's check (and any extra ids), records what it printed, and undoes the change.
 set -u
 cd "$(dirname "$0")/.."
+mkdir -p .cache; exec 9>.cache/seeded.lock; flock 9   # one seeded change in /repo at a time
 D=$1; shift
 P=$(python3 -c "import json; print(json.load(open('$D/meta.json'))['property'])")
 IDS="$P $@"
